@@ -36,6 +36,7 @@ type Frame struct {
 
 type loopSnap struct {
 	variant *Term
+	ghost   map[string]*Term // ghost state at the loop head (after havoc)
 }
 
 type deferred struct {
@@ -1493,15 +1494,15 @@ func (e *Engine) binop(st *State, op token.Token, a, b Val, xt types.Type) Val {
 			// Go panics on division by zero: surviving path has y != 0
 			st.assume(fmt.Sprintf("(not (= %s %s))", y.T, bvLit(0, w)))
 			if sg {
-				return bin("bvsdiv")
+				return e.arithAbs(st, bin("bvsdiv"))
 			}
-			return bin("bvudiv")
+			return e.arithAbs(st, bin("bvudiv"))
 		case token.REM:
 			st.assume(fmt.Sprintf("(not (= %s %s))", y.T, bvLit(0, w)))
 			if sg {
-				return bin("bvsrem")
+				return e.arithAbs(st, bin("bvsrem"))
 			}
-			return bin("bvurem")
+			return e.arithAbs(st, bin("bvurem"))
 		case token.AND:
 			return bin("bvand")
 		case token.OR:
@@ -1628,6 +1629,12 @@ func bstrOf(b string) string {
 	}
 	if b == "(mkB true str_empty)" {
 		return "str_empty"
+	}
+	if strings.HasPrefix(b, "(mkB ") && strings.HasSuffix(b, ")") {
+		// (mkB <nil?> <content>): the content is the last argument
+		if args := splitSexprs(b[len("(mkB ") : len(b)-1]); len(args) == 2 {
+			return args[1]
+		}
 	}
 	return "(bstr " + b + ")"
 }
